@@ -533,7 +533,7 @@ def handleCore (mac : Bool) (args : List String) (obs : String) : Option Reply :
   let aggK := aggK.filter fun (_, _, n) => n ≠ 0
   let showK := if aggK.isEmpty then "-" else
     ",".intercalate (aggK.map fun (s, a, n) => s!"C:{s}:{match a with | some a => hexS a | none => "~"}:{n}")
-  let model := if mac then s!"N{seg0 'N'} S{seg0 'S'} K{showK} X0 G{cfgDump} O{hexS outTxt} L{showExecs execsB} E{evalsS}"
+  let model := if mac then s!"N{seg0 'N'} S{seg0 'S'} V{seg0 'V'} K{showK} X0 G{cfgDump} O{hexS outTxt} L{showExecs execsB} E{evalsS}"
     else s!"X0 G{cfgDump} O{hexS outTxt} L{showExecs r.execs} E{evalsS}"
   -- ---- spec on the implementation's observation
   let o := words obs
@@ -579,6 +579,29 @@ def handleCore (mac : Bool) (args : List String) (obs : String) : Option Reply :
         | some (s, _, _) => [s!"[C12][C13][C17] a benchmark function without a Bencher was called although its case is not selected (slot {s})"]
         | none => [])
      else if mac ∧ listing ∧ !implK.isEmpty then ["[C14] listing invoked benchmarked functions"] else []) ++
+    -- C02/C01: a function without a Bencher that returns a value with a destructor: the runner keeps the
+    -- outputs of a sample until its calls are over, so at the last call of a sample of size s the s-1
+    -- earlier outputs are alive (judged for cases that run on one thread only)
+    (if mac ∧ !listing ∧ (seg 'X') = "0" then
+       let roSlots : List Nat := ((cfgKV.find? (·.1 = "ro")).map fun kv => (kv.2.splitOn ":").filterMap String.toNat?).getD []
+       let liveOf (slot : Nat) : Option Nat := ((seg0 'V').splitOn ",").findSome? fun e => match e.splitOn ":" with
+         | [k, m] => if k.toNat? = some slot then m.toNat? else none
+         | _ => none
+       let szOf (d : Case) : Nat := if execAct = .bench then (resolve (·.ss) ps.cfg.runtime d.chain).getD 0 else 1
+       let oneThread (d : Case) : Bool := specThreads (resolve (·.th) ps.cfg.runtime d.chain) ps.cfg.parallelism == [1]
+       let bad := nbRuns.find? fun c =>
+         let sz := szOf c
+         -- every case of this slot runs on one thread and with this sample size
+         let mine := nbRuns.filter fun d => d.slot == c.slot
+         roSlots.contains c.slot && oneThread c && decide (sz ≥ 1) &&
+         (mine.all fun d => oneThread d && szOf d == sz) &&
+         (match liveOf c.slot with
+          | some m => m != sz - 1
+          | none => false)
+       match bad with
+       | some c => [s!"[C02][C01] the outputs of a benchmark function were not kept until the sample's calls were over: they were dropped between the calls, inside the timed section (case {c.path})"]
+       | none => []
+     else []) ++
     -- C17: the argument list of a benchmark is evaluated once per process (and shared by its instantiations)
     (let counts := ((seg 'E').splitOn ":").filterMap String.toNat?
      let bad := (List.range counts.length).find? fun k => counts.getD k 0 > 1
@@ -604,8 +627,8 @@ def handleCore (mac : Bool) (args : List String) (obs : String) : Option Reply :
        if bad then ["[C17] the rows of a generic benchmark with args were not run by the instantiation (type / const) and argument they name"] else []
      | none => []) ++
     (if (seg 'X') = "0" ∧ seg 'G' ≠ cfgDump then
-       ["[C15][C14][C16] the runner's run-time configuration differs from what was given on the command line / DIVAN_* environment / builder (got " ++ seg 'G' ++ ")"] else []) ++
-    (if (seg 'X') ≠ "0" then ["[C12][C13][C14][C15][C16][C17][C20] run did not finish cleanly (exit " ++ seg 'X' ++ ")"] else []) ++
+       ["[C15][C14][C16][C04][C03] the runner's run-time configuration differs from what was given on the command line / DIVAN_* environment / builder (got " ++ seg 'G' ++ ")"] else []) ++
+    (if (seg 'X') ≠ "0" then ["[C12][C13][C14][C15][C16][C17][C20][C04][C03] run did not finish cleanly (exit " ++ seg 'X' ++ ")"] else []) ++
     (match implExecs with
      | none => ["[C12][C13][C14][C15][C17] malformed invocation log"]
      | some ex =>
@@ -726,6 +749,19 @@ def handleCore (mac : Bool) (args : List String) (obs : String) : Option Reply :
             [s!"[C16][C20] the rows are not in the documented sorted depth-first order (row {i}: `{(mine.getD i (0, "")).2}` is printed where `{(want.getD i (0, "")).2}` belongs)"]
           else []
         else []) ++
+       -- C20/C15: no thread-count branch twice under one case (duplicate counts collapse)
+       (if ps.act ≠ "terse" ∧ (seg 'X') = "0" then
+          let rows := ((implOut.splitOn "\n").filterMap parseTLine).toArray
+          let isT (l : String) : Bool := l.startsWith "t=" ∧ ((l.drop 2).toString.toNat?).isSome
+          let dup := (List.range rows.size).find? fun i =>
+            let r := rows[i]!
+            isT r.label ∧ i + 1 < rows.size ∧
+              (let kids := ((List.range (rows.size - i - 1)).map fun k => rows[i + 1 + k]!).takeWhile fun x => x.depth ≥ r.depth
+               kids.any fun x => x.depth = r.depth ∧ x.label = r.label)
+          match dup with
+          | some i => [s!"[C20][C15] the thread-count branch `{(rows[i]!).label}` is printed (and run) more than once under one benchmark"]
+          | none => []
+        else []) ++
        -- C20: glyphs of the printed tree, judged on the text alone
        (if ps.act ≠ "terse" ∧ (seg 'X') = "0" then
           match treeGlyphsOk implOut with
@@ -747,6 +783,18 @@ def handleCore (mac : Bool) (args : List String) (obs : String) : Option Reply :
     s!"{ps.act}-{if ps.pos.isEmpty ∧ ps.neg.isEmpty then "nofilter" else "filter"}-ign{ps.cfg.runIgnored}" ++
       (if r.ambiguous then "-ambiguous" else "") ++ (if clash then "-clash" else "") ++ (if sibAll then "" else "-nosibok")
   some { model := model, verdict := verdict, tag := (if mac then "mac-" else "") ++ tag }
+
+/-- `elist threads per rounds`: nodes pushed into one `EntryList` from several threads at once; every
+    one of them (and the head) must be there afterwards -/
+def handleElist (args : List String) (obs : String) : Option Reply := do
+  match args.mapM String.toNat? with
+  | some [threads, per, _rounds] =>
+    let want := threads * per + 1
+    some { model := toString want,
+           verdict := check (obs.trimAscii.toString = toString want)
+             s!"[C12] entries pushed into the registration list at the same time were lost (at least {want} - {obs.trimAscii.toString} of {want})",
+           tag := if threads ≤ 1 then "trivial-one-thread" else s!"t{min threads 8}" }
+  | _ => none
 
 def handle (args : List String) (obs : String) : Option Reply := handleCore false args obs
 def handleMac (args : List String) (obs : String) : Option Reply := handleCore true args obs
